@@ -19,6 +19,13 @@ LABELSETS = {
     "unicode": ["é", "日本", "ß", "a", "ö-b"],
 }
 NAMES = ["a", "b", "c", "d"]
+NAMESETS = {
+    "abcd": NAMES,
+    "prefix": ["a", "ab", "abc", "a_2"],
+    "odd": ["", "a ", "A", "a"],
+    "unicode": ["é", "日本", "ß", "a"],
+    "many": ["t%d" % i for i in range(10)],
+}
 
 CROP_MODES = ["strict", "lax", "truncated"]
 ERASE_MODES = ["truncate", "categorical", "error"]
@@ -39,6 +46,7 @@ class G:
         self.cfg = cfg
         self.regime = cfg.get("regime", "grid")
         self.labels = LABELSETS[cfg.get("labels", "plain")]
+        self.names = NAMESETS[cfg.get("names", "abcd")]
 
     # ------------------------------------------------------------- scalars
     def chance(self, p):
@@ -51,7 +59,7 @@ class G:
         return self.pick(self.labels)
 
     def name(self):
-        return self.pick(NAMES)
+        return self.pick(self.names)
 
     def raw_time(self):
         r = self.rng
